@@ -39,7 +39,7 @@ fn main() {
         }
     }
     // panics of the implementation are caught per case; keep stderr quiet
-    std::panic::set_hook(Box::new(|_| {}));
+    install_panic_hook();
     let mut run = Run::new(&prop, &opts);
     match prop.as_str() {
         "C01" => c01::run(&mut run),
